@@ -161,6 +161,10 @@ func c15worker(c *hx.Ctx) int {
 		scn := Scenario{Name: fmt.Sprintf("cache pre-warmed with %v", warm), Cfg: verifrt.SchedConfig{Mutex: true, Atomic: true}}
 		scn.Setup = func() {
 			resetPools()
+			// state flush: one fixed call through every cache path, so that any "most recently
+			// used" style of hidden state is a function of this prelude only and not of the
+			// previous execution; then the cache itself is set to the scenario's start state
+			validate.Pattern("flush", "query", "x", "^verif-flush$")
 			validate.VerifSetRegexpCache(warm...)
 		}
 		want := make([][]string, len(threads))
